@@ -103,7 +103,7 @@ func c02GenChunks(s *verifh.Session) []string {
 
 func TestVerif_C02_ops(t *testing.T) {
 	s := verifh.New(t, "C02", "ops",
-		"scripted transport body (0..5 segments of 0..32769 random bytes, ends with EOF or error) x config {auto-read, Client/Request.DisableAutoReadResponse, SetOutput, SetOutputFile, SetSuccessResult (JSON body)} x status {101,150,200,201,204,301,304,404,500} x 0..8 observation ops {ToBytes,ToString,Bytes,String,Body.Read(n),io.ReadAll(Body),Body.Close}; real pipeline Transport.RoundTrip->http.Client->Client.roundTrip->middlewares; non-trivial = non-empty body and >=2 ops")
+		"scripted transport body (0..5 segments of 0..32769 random bytes, ends with EOF or error) x config {auto-read, Client/Request.DisableAutoReadResponse, SetOutput, SetOutputFile, SetSuccessResult / SetErrorResult (JSON body)} x status {101,150,200,201,204,301,304,404,500} x 0..8 observation ops {ToBytes,ToString,Bytes,String,Body.Read(n),io.ReadAll(Body),Body.Close}; real pipeline Transport.RoundTrip->http.Client->Client.roundTrip->middlewares; non-trivial = non-empty body and >=2 ops")
 	r := s.Rand()
 	dir := t.TempDir()
 	n := verifh.N(1500, 40000)
@@ -138,7 +138,9 @@ func TestVerif_C02_ops(t *testing.T) {
 		// itself; with SetOutput the download copies the cached bytes. The body is JSON in
 		// these cases so that unmarshalling succeeds.
 		result := r.Intn(5) == 0
-		if result {
+		// an error-result object (SetErrorResult): the same for statuses >= 400
+		eres := r.Intn(5) == 0
+		if result || eres {
 			js := `{"k":"` + verifh.RandBytes(r, r.Intn(300), "abcdefghijklmnopqrstuvwxyz0123456789 ") + `","n":[1,2,3]}`
 			chunks = nil
 			for len(js) > 0 {
@@ -166,7 +168,7 @@ func TestVerif_C02_ops(t *testing.T) {
 			}
 			return "0"
 		}
-		cfg := "c" + b01(cdis) + "r" + b01(rdis) + "s" + b01(save) + "j" + b01(result)
+		cfg := "c" + b01(cdis) + "r" + b01(rdis) + "s" + b01(save) + "j" + b01(result) + "e" + b01(eres)
 		opsStr := "-"
 		if len(ops) > 0 {
 			opsStr = strings.Join(ops, ",")
@@ -210,6 +212,10 @@ func TestVerif_C02_ops(t *testing.T) {
 			if result {
 				rq.SetSuccessResult(&resultObj)
 			}
+			var errObj interface{}
+			if eres {
+				rq.SetErrorResult(&errObj)
+			}
 			var w *c02Writer
 			var fpath string
 			if save {
@@ -238,8 +244,8 @@ func TestVerif_C02_ops(t *testing.T) {
 			}
 			var obs []string
 			auto := !cdis && !rdis && !save && status > 199
-			unmarshalled := result && status > 199 && status < 300 && status != 204
-			if unmarshalled && fin == "eof" && (string(resp.Bytes()) != whole || resultObj == nil) {
+			unmarshalled := (result && status > 199 && status < 300 && status != 204) || (eres && status > 399)
+			if unmarshalled && fin == "eof" && (string(resp.Bytes()) != whole || (resultObj == nil && errObj == nil)) {
 				propOK = false // the result object was filled from exactly the body
 			}
 			var streamed []byte // bytes the caller pulled out of the live stream, in order
@@ -353,6 +359,9 @@ func TestVerif_C02_ops(t *testing.T) {
 			s.Count("mode:auto")
 		}
 		s.Count("fin:" + fin)
+		if eres && status > 399 {
+			s.Count("error-result-bound")
+		}
 		if result {
 			s.Count("with-result-object")
 			if save {
